@@ -17,6 +17,8 @@ CONSTANTS MaxP, MaxE,      \* vector lengths (leaf points / leaf expressions ava
           MaxCalls,
           DevF9, DevF12,
           WithZeroFun,     \* include the all-zero combination f1 - f1 (function 9)
+          QSet,            \* indices of the query points used
+          OpSet,           \* subset of {"oracle", "value", "prox", "gradient", "call"}
           Sim              \* TRUE under -simulate: pick one random call per step instead of enumerating all
 ZeroP == ZeroV(MaxP)
 ZeroF == ZeroV(MaxE)
@@ -106,8 +108,10 @@ ZeroFunDef == Fn(FALSE, FALSE, <<<<1, Z>>>>)                             \* 9: f
 InitFuns == IF WithZeroFun THEN Append(BaseFuns, ZeroFunDef) ELSE BaseFuns
 \* query points (the driver builds a NEW Python object for every call):
 \*   1: x1   2: x2   3: x1 - x2   4: 0 * x2 (the zero point, stored with an explicit zero)   5: x1 - x1 (the zero point)
+\*   6: (1 + 2^-20) * x1  - a DIFFERENT point, however close to x1
 Queries == << [v |-> UnitP(1), z |-> FALSE], [v |-> UnitP(2), z |-> FALSE],
-              [v |-> VSub(UnitP(1), UnitP(2)), z |-> FALSE], [v |-> ZeroP, z |-> TRUE], [v |-> ZeroP, z |-> FALSE] >>
+              [v |-> VSub(UnitP(1), UnitP(2)), z |-> FALSE], [v |-> ZeroP, z |-> TRUE], [v |-> ZeroP, z |-> FALSE],
+              [v |-> VScale(<<1048577, 1048576>>, UnitP(1)), z |-> FALSE] >>
 \* ---------- state machine
 VARIABLES W, hist
 vars == <<W, hist>>
@@ -120,7 +124,7 @@ CallOn(Wx, c) == CASE c.op \in {"oracle", "gradient"} -> OracleOp(Wx, c.f, Queri
                    [] c.op = "fixed"  -> Fixed(Wx, c.f)
                    [] c.op = "prox"   -> Prox(Wx, c.f, Queries[c.q])
 Call(c) == CallOn(W, c)
-Calls == {[op |-> o, f |-> fid, q |-> qi] : o \in {"oracle", "value", "prox", "gradient", "call"}, fid \in 1..Len(InitFuns), qi \in 1..Len(Queries)}
+Calls == {[op |-> o, f |-> fid, q |-> qi] : o \in OpSet, fid \in 1..Len(InitFuns), qi \in QSet}
          \cup {[op |-> o, f |-> fid, q |-> 0] : o \in {"stat", "fixed"}, fid \in 1..Len(InitFuns)}
 NextCalls == IF Sim THEN {RandomElement(Calls)} ELSE Calls
 Next == Room /\ \E c \in NextCalls : W' = Call(c) /\ hist' = Append(hist, c)
@@ -152,6 +156,10 @@ I3(funs) == \A fid \in 1..Len(funs) : (~funs[fid].leaf /\ ~ZeroFun(funs, fid)) =
               \A s \in 1..Len(funs[fid].pts) : I3At(funs, fid, s)
 I3Zero(funs) == \A fid \in 1..Len(funs) : ZeroFun(funs, fid) =>
               \A s \in 1..Len(funs[fid].pts) : VIsZero(funs[fid].pts[s].g) /\ VIsZero(funs[fid].pts[s].f)
+\* a sum that claims to be differentiable (one gradient per point) must have only differentiable terms of non-zero
+\* weight: otherwise a repeated query pins one subgradient of a non-smooth term
+I6(funs) == \A fid \in 1..Len(funs) : (~funs[fid].leaf /\ funs[fid].diff) =>
+              \A k \in 1..Len(NonZero(funs[fid].w)) : funs[NonZero(funs[fid].w)[k][1]].diff
 I4(funs) == \A fid \in 1..Len(funs) : \A k \in 1..Len(funs[fid].stat) :
               funs[fid].stat[k] \in 1..Len(funs[fid].pts) /\ VIsZero(funs[fid].pts[funs[fid].stat[k]].g)
 InvI1 == I1(W.funs)
